@@ -36,7 +36,7 @@ def check(ctx):
         "1e-9, interface lists and tactic numbers exactly); C01's conclusion decided exactly per result by case-splitting the "
         "'component honours its contract' hypotheses into LPs whose certificates base/Farkas.v re-checks. non-trivial = a "
         "contract was returned after eliminating at least one variable, or IncompatibleArgsError; distinct by canonical input")
-    proved = ctx.prove("props/C01.v", ["proofs/PolyDomainFacts.v", "proofs/TacticsFacts.v", "proofs/AlgebraSound.v"])
+    proved = ctx.prove("props/C01.v", ["proofs/PolyDomainFacts.v", "proofs/TacticsFacts.v", "proofs/AlgebraSound.v", "proofs/WrapGenCompose.v"])
     ctx.build(["model/PolyDomain.vo", "base/Farkas.vo"])
     rng = random.Random(ctx.seed + 1)
     n = (150 if ctx.quick else 3000) * (1 if proved else 3)
